@@ -171,4 +171,30 @@ repr(ValueError(1)) == "ValueError(1)"
 repr(ValueError(1, 2, 3)) == "ValueError(1, 2, 3)"
 repr(ValueError("failed")) == 'ValueError("failed")'
 
+doc = "bare raise in a function called from an except clause"
+def reraise():
+    raise
+def reraise_after_own_handler():
+    try:
+        raise ValueError
+    except ValueError:
+        pass
+    raise
+for fn in (reraise, reraise_after_own_handler):
+    ok = False
+    try:
+        try:
+            raise KeyError
+        except KeyError:
+            fn()
+    except KeyError:
+        ok = True
+    assert ok, "KeyError not re-raised by the called function"
+ok = False
+try:
+    reraise()
+except RuntimeError:
+    ok = True
+assert ok, "RuntimeError not raised (no exception is being handled any more)"
+
 doc = "finished"
